@@ -31,7 +31,7 @@ pub struct C13Case {
     pub opts: SolveOpts,
 }
 
-pub const FAMILIES: &[(&str, u64)] = &[("tiny", 3), ("tiny-hints", 3), ("tiny-soft", 2), ("tiny-hints-soft", 2), ("medium", 2), ("medium-hints", 2), ("conf", 2), ("conf-hints", 2), ("hostile", 1), ("big", 1), ("many", 1), ("many-hints", 1), ("wide", 1)];
+pub const FAMILIES: &[(&str, u64)] = &[("tiny", 3), ("tiny-hints", 3), ("tiny-soft", 2), ("tiny-hints-soft", 2), ("medium", 2), ("medium-hints", 2), ("conf", 2), ("conf-hints", 2), ("hostile", 1), ("big", 1), ("many", 1), ("many-hints", 1), ("wide", 1), ("many-soft", 1)];
 
 impl Monitor for C13 {
     type Case = C13Case;
